@@ -118,6 +118,16 @@ func (s *Server) cmdSetHook(msg *Message) (
 		return NOMessage, d, errors.New("missing FENCE argument")
 	}
 	args.cmd = cmdlc
+	// A filter given by the sha of a loaded script is logged (and kept for the
+	// rewrite of the log) with the script itself: loaded scripts are gone
+	// after a restart and unknown to a follower.
+	for i := 2; i+1 < len(commandvs); i++ {
+		if strings.ToLower(commandvs[i]) == "whereevalsha" {
+			if source, ok := s.luascripts.Source(commandvs[i+1]); ok {
+				commandvs[i], commandvs[i+1] = "WHEREEVAL", source
+			}
+		}
+	}
 	if args.usingLua() {
 		// the deferred Close above hands the pooled interpreters back
 		args.whereevals = detachWhereevals(args.whereevals)
